@@ -22,8 +22,12 @@ def spec_oracle(cfg, r):
     if len(exps) != cfg["P"]:
         exps = [(None, None)] * cfg["P"]       # the code evaluates exp differently: the rule below does not depend on how
     acc = 0
+    reqs, vals = r.rng.requests, getattr(r.rng, "values", [])
     for k, (s, (x, v)) in enumerate(zip(snaps, exps)):
-        u = cfg["us"][k]
+        # the uniform number the code actually compared with: the last (0, 1) draw of this transition
+        lo_, hi_ = (snaps[k - 1].get("req_end", 0) if k else 0), s.get("req_end", 0)
+        mine = [j for j in range(lo_, min(hi_, len(vals))) if reqs[j][:3] == ("uniform", 0.0, 1.0)]
+        u = float(numpy.asarray(vals[mine[-1]]).flatten()[0]) if mine else cfg["us"][k]
         decided = s["acc_after"] > s["acc_before"]
         if cfg["kind"] == "rwmh":
             e_cur, e_prop = s["x_before"], s["proposed_x"]
@@ -55,7 +59,8 @@ def spec_oracle(cfg, r):
         if s["acc_after"] - s["acc_before"] not in (0, 1):
             out.append(("counter", f"transition {k}: counter moved by {s['acc_after'] - s['acc_before']}"))
         if cfg["kind"] == "rwmh" and not cfg["tune"]:
-            z = numpy.array(cfg["zs"][k]).reshape(-1, 1)
+            zj = [j for j in range(lo_, min(hi_, len(vals))) if reqs[j][0] == "normal"]
+            z = (numpy.asarray(vals[zj[0]], dtype=float) if zj else numpy.array(cfg["zs"][k])).reshape(-1, 1)      # the normal draw of this transition
             cur = numpy.array(s["cur_before"]).reshape(-1, 1)
             st = (numpy.array(cfg["stepvec"]).reshape(-1, 1) if cfg["stepmode"] == "vector" else cfg["stepsize"])
             if not same_vec(common.col(cur + st * 1.0 * z), s["proposed"]):
